@@ -108,7 +108,7 @@ class AQTNoiseModel(cirq.NoiseModel):
         for op in moment.operations:
             op_str = get_op_string(op)
             if op_str not in self.noise_op_dict:
-                break
+                continue
             noise_op = self.noise_op_dict[op_str]
             for qubit in op.qubits:
                 noise_list.append(noise_op.on(qubit))
